@@ -257,3 +257,67 @@ def rename_twins(repo: str, rel: str) -> list[tuple[str, dict[str, str]]]:
                 continue
             out.append((f"{rel}:{fn.name}@{fn.lineno}:{loc}", {rel: newsrc}))
     return out
+
+
+# ---------------------------------------------------------------------------
+# more behaviour-preserving twin families (AST transforms, re-emitted with ast.unparse)
+# ---------------------------------------------------------------------------
+
+
+def _invert(test: ast.AST) -> ast.AST:
+    if isinstance(test, ast.UnaryOp) and isinstance(test.op, ast.Not):
+        return test.operand
+    return ast.UnaryOp(op=ast.Not(), operand=test)
+
+
+def structural_twins(repo: str, rel: str, families: tuple[str, ...] = ("invert-if", "temp-return")) -> list[tuple[str, dict[str, str]]]:
+    """(description, overlay): one twin per site.
+
+    invert-if    ``if c: A else: B``  ->  ``if not c: B else: A``
+    temp-return  ``return <expr>``    ->  ``_ret_tw = <expr>; return _ret_tw``
+    """
+    import copy as _copy
+
+    path = os.path.join(repo, rel)
+    if not os.path.exists(path):
+        return []
+    with open(path, encoding="utf-8") as fh:
+        text = fh.read()
+    base = ast.parse(text)
+    out: list[tuple[str, dict[str, str]]] = []
+
+    def emit(desc: str, tree: ast.AST) -> None:
+        ast.fix_missing_locations(tree)
+        try:
+            new = ast.unparse(tree) + "\n"
+            ast.parse(new)
+        except Exception:
+            return
+        out.append((f"{rel}:{desc}", {rel: new}))
+
+    if "invert-if" in families:
+        sites = [n for n in ast.walk(base) if isinstance(n, ast.If) and n.orelse]
+        for i, site in enumerate(sites):
+            tree = _copy.deepcopy(base)
+            tgt = [n for n in ast.walk(tree) if isinstance(n, ast.If) and n.orelse][i]
+            tgt.test, tgt.body, tgt.orelse = _invert(tgt.test), tgt.orelse, tgt.body
+            emit(f"invert-if@{site.lineno}", tree)
+    if "temp-return" in families:
+        def ret_sites(t):
+            return [n for n in ast.walk(t) if isinstance(n, ast.Return) and n.value is not None and not isinstance(n.value, (ast.Name, ast.Constant))]
+        for i, site in enumerate(ret_sites(base)):
+            tree = _copy.deepcopy(base)
+            tgt = ret_sites(tree)[i]
+            # find the statement list that holds the return
+            for holder in ast.walk(tree):
+                for fld in ("body", "orelse", "finalbody"):
+                    lst = getattr(holder, fld, None)
+                    if isinstance(lst, list) and tgt in lst:
+                        k = lst.index(tgt)
+                        lst[k : k + 1] = [ast.Assign(targets=[ast.Name(id="_ret_tw", ctx=ast.Store())], value=tgt.value), ast.Return(value=ast.Name(id="_ret_tw", ctx=ast.Load()))]
+                        break
+                else:
+                    continue
+                break
+            emit(f"temp-return@{site.lineno}", tree)
+    return out
